@@ -126,6 +126,22 @@ func synthArgs(r *R, mt reflect.Type, name string, isObj bool, variant int) []re
 	return args
 }
 
+func manyVals(n int) []any {
+	vs := make([]any, n)
+	for i := range vs {
+		vs[i] = (i * 7) % 1000
+	}
+	vs[0], vs[1], vs[2], vs[3] = 3, 1, 2, 5
+	return vs
+}
+func manyPairs(n int) []any {
+	vs := []any{"a", 1, "b", 2}
+	for i := 0; i < n; i++ {
+		vs = append(vs, fmt.Sprintf("k%d", i), i)
+	}
+	return vs
+}
+
 func genC19(r *R, n int, tier string, out *Out) {
 	type target struct {
 		isObj bool
@@ -137,6 +153,10 @@ func genC19(r *R, n int, tier string, out *Out) {
 		{false, 2, func() (reflect.Value, any) { m := newMyList2(3, 1, 2, 5); return reflect.ValueOf(m), m }},
 		{true, 1, func() (reflect.Value, any) { m := newMyObj("a", 1, "b", 2); return reflect.ValueOf(m), m }},
 		{true, 2, func() (reflect.Value, any) { m := newMyObj2("a", 1, "b", 2); return reflect.ValueOf(m), m }},
+		// long / wide derived containers (a method may switch strategy by size and forget the registered value on that path)
+		{false, 1, func() (reflect.Value, any) { m := newMyList(manyVals(300)...); return reflect.ValueOf(m), m }},
+		{false, 2, func() (reflect.Value, any) { m := newMyList2(manyVals(1030)...); return reflect.ValueOf(m), m }},
+		{true, 1, func() (reflect.Value, any) { m := newMyObj(manyPairs(70)...); return reflect.ValueOf(m), m }},
 	}
 	emitted := 0
 	variant := 0
@@ -265,6 +285,25 @@ func innerLevelsStored(f *failer, outer any) {
 
 func storedChecks(f *failer, outer any, isObj bool) {
 	defer innerLevelsStored(f, outer)
+	// a mutator that panics (an invalid index in a multi-index Delete, Insert/Replace out of range, Set with an odd count) leaves
+	// the stored derived values where they are: the identical outer value is still handed back
+	func() {
+		hl := at.NewList(outer, 1, 2, outer)
+		ho := at.NewObject("d", outer, "x", 1)
+		try(func() { hl.Delete(1, 99) })
+		try(func() { hl.Insert(-1, 0) })
+		try(func() { hl.Replace(77, 0) })
+		try(func() { ho.Set("y") })
+		if hl.Count() > 0 && hl.Get(0) != outer {
+			f.fail("after a panicking mutator (recovered) List.Get(0) hands back %T instead of the stored derived value %T", hl.Get(0), outer)
+		}
+		if hl.Count() > 0 && hl.Get(hl.Count()-1) != outer {
+			f.fail("after a panicking mutator (recovered) the last element is %T instead of the stored derived value %T", hl.Get(hl.Count()-1), outer)
+		}
+		if ho.Get("d") != outer {
+			f.fail("after a panicking Set (recovered) Object.Get hands back %T instead of the stored derived value %T", ho.Get("d"), outer)
+		}
+	}()
 	holderL := at.NewList(0, outer, "x")
 	holderO := at.NewObject("d", outer, "s", 1)
 	deep := at.NewObject("l", at.NewList(outer))
@@ -719,6 +758,77 @@ func readersCase(r *R, goroutines int) *Case {
 		Key: fmt.Sprintf("readers/%d/%s", goroutines, before), Tags: []string{"concurrent-readers"}}
 }
 
+// async calls made from inside async callbacks (a list of lists mapped row by row, an object of objects): each call has its own
+// workers and its own synchronisation, so the nested calls return; the result equals the nested sequential Map
+func nestedAsyncCase(r *R, procs int) *Case {
+	old := runtime.GOMAXPROCS(procs)
+	defer runtime.GOMAXPROCS(old)
+	f := &failer{pred: true}
+	rows := 2 + r.Intn(4)
+	outer := at.NewList()
+	oo := at.NewObject()
+	for i := 0; i < rows; i++ {
+		row := at.NewList()
+		ro := at.NewObject()
+		for j := 0; j < 1+r.Intn(4); j++ {
+			row.Add(i*10 + j)
+			ro.Set(fmt.Sprintf("c%d", j), i*10+j)
+		}
+		outer.Add(row)
+		oo.Set(fmt.Sprintf("r%d", i), ro)
+	}
+	done := make(chan string, 1)
+	go func() {
+		defer func() {
+			if rec := recover(); rec != nil {
+				done <- fmt.Sprintf("panic: %v", rec)
+			}
+		}()
+		inc := func(_ int, y any) any { return y.(int) + 1 }
+		got := outer.MapAsync(func(_ int, x any) any { return x.(at.List).MapAsync(inc) })
+		want := outer.Map(func(_ int, x any) any { return x.(at.List).Map(inc) })
+		if !got.Equals(want) {
+			done <- "List.MapAsync nested in List.MapAsync differs from the nested Map"
+			return
+		}
+		inco := func(_ string, y any) any { return y.(int) + 1 }
+		goto_ := oo.MapAsync(func(_ string, x any) any { return x.(at.Object).MapAsync(inco) })
+		wanto := oo.Map(func(_ string, x any) any { return x.(at.Object).Map(inco) })
+		if !goto_.Equals(wanto) {
+			done <- "Object.MapAsync nested in Object.MapAsync differs from the nested Map"
+			return
+		}
+		var cnt int64
+		outer.ForEachAsync(func(_ int, x any) {
+			x.(at.List).ForEachAsync(func(int, any) { atomic.AddInt64(&cnt, 1) })
+			oo.ForEachAsync(func(string, any) { atomic.AddInt64(&cnt, 1) })
+		})
+		mixed := outer.MapAsync(func(_ int, x any) any {
+			n := 0
+			var mu sync.Mutex
+			x.(at.List).ForEachAsync(func(int, any) { mu.Lock(); n++; mu.Unlock() })
+			return n
+		})
+		for i := 0; i < rows; i++ {
+			if mixed.GetInt(i) != outer.GetList(i).Count() {
+				done <- "ForEachAsync nested in MapAsync did not visit every element once"
+				return
+			}
+		}
+		done <- ""
+	}()
+	select {
+	case msg := <-done:
+		if msg != "" {
+			f.fail("%s", msg)
+		}
+	case <-time.After(6 * time.Second):
+		f.fail("an async call made from inside an async callback did not return within 6 s (GOMAXPROCS=%d): the nested calls block each other", procs)
+	}
+	return &Case{Coq: "", Desc: map[string]any{"nested_async": rows, "GOMAXPROCS": procs}, Pred: f.pred, PredMsg: f.msg, Nontrivial: true,
+		Key: fmt.Sprintf("nested-async/%d/%d", rows, procs), Tags: []string{"nested-async"}}
+}
+
 func genC15(r *R, n int, tier string, out *Out) {
 	sizes := []int{0, 1, 2, 3, 7, 8, 9, 10, 13, 15, 16, 17, 23, 33, 63, 64, 65, 100, 129}
 	if thorough {
@@ -728,6 +838,10 @@ func genC15(r *R, n int, tier string, out *Out) {
 	for i := 0; i < n; i++ {
 		if i%5 == 4 {
 			out.emit(readersCase(r, 2+r.Intn(7)))
+			continue
+		}
+		if i%23 == 11 {
+			out.emit(nestedAsyncCase(r, pickOf(r, []int{1, 2, 16})))
 			continue
 		}
 		if i%7 == 3 {
